@@ -184,6 +184,9 @@ def encode_sequence(content, error=None, version=None, mode=None, mask=None,
     # Creating one QR code failed or max_no is not None
     if isinstance(content, int):
         content = str(content)
+    if encoding is None and isinstance(content, str):
+        # Use the encoding of the complete message for all symbols
+        encoding = data_to_bytes(content, None)[2]
     if symbol_count is not None and len(content) < symbol_count:
         raise ValueError(f'The content is not long enough to be divided into {symbol_count} symbols')
     sa_parity_data = calc_structured_append_parity(content, consts.HANZI_ENCODING if mode == consts.MODE_HANZI
